@@ -136,6 +136,7 @@ def contracts(T: Types, reg: Registry, ctx):
     reg.add_shape(Shape("CdsConf", fields={"min_size_to_cache": INT, "max_size_to_cache": INT, "warn_threshold": INT, "disable_client_data_store": BOOL,
                                            "local_cache_size": INT}))
     reg.add_shape(Shape("CdsApp", fields={"serializer": ObjT("Serializer")}))
+    _auto = True
     STORE = MapT(STR, STR)
     CACHE = MapT(STR, PYOBJ)
     reg.add_shape(Shape("ClientDataStore", fields={"storage": STORE, "_deserialized_cache": CACHE, "conf": ObjT("CdsConf"), "app": ObjT("CdsApp")},
@@ -152,6 +153,7 @@ def contracts(T: Types, reg: Registry, ctx):
                                 STORE.opt.is_some(z3.Select(c.f("storage"), z3.Const("ck", z3.StringSort()))),
                                 CACHE.opt.val(z3.Select(c.f("_deserialized_cache"), z3.Const("ck", z3.StringSort()))) ==
                                 D(STORE.opt.val(z3.Select(c.f("storage"), z3.Const("ck", z3.StringSort()))))))))]))
+    reg.shapes["ClientDataStore"].auto_fields = True     # further bookkeeping attributes are "don't care" fields
     A = dict(assumed=True, check_invariants=False)
     reg.add(Contract(key="Cds._log", shape="ClientDataStore", params={"size": INT, "reason": STR}, frame=[], effect_events=False, cases=[Case("logged")], **A))
     reg.add(Contract(key="Cds._store", shape="ClientDataStore", params={"key": STR, "value": STR}, frame=["storage"],
@@ -302,6 +304,42 @@ def identity_and_round_trips(ctx: RunCtx) -> BoundedResult:
                     if back != v or back2 != v or r1 != r2:
                         res.failures.append({"what": f"{backend}/{ser}: value {str(v)[:40]!r} does not round-trip (or equal content gives different references)",
                                              "finding_key": f"{backend}:{ser}:roundtrip"})
+                # whole argument mappings: every argument is serialised on its own - values that merely compare equal (1 == True == 1.0,
+                # 0 == False, 0.0 == -0.0) must not be conflated; the identity of the call must tell them apart as well
+                def typed(x):
+                    return (type(x).__name__, repr(x))
+                mappings = [{"a": 1, "b": True}, {"a": True, "b": 1}, {"a": 0, "b": False}, {"a": 1, "b": 1.0}, {"a": 0.0, "b": -0.0},
+                            {"a": "1", "b": 1}, {"a": (1,), "b": [1]} if ser == "pickle" else {"a": [1], "b": [True]}, {"a": None, "b": 0}]
+                for kw in mappings:
+                    n += 1
+                    try:
+                        back = cds.deserialize_arguments(cds.serialize_arguments(dict(kw), ()))
+                    except Exception as e:
+                        res.failures.append({"what": f"{backend}/{ser}: {type(e).__name__} on arguments {kw}", "finding_key": f"{backend}:{ser}:exception"})
+                        continue
+                    if {k: typed(v) for k, v in back.items()} != {k: typed(v) for k, v in kw.items()}:
+                        res.failures.append({"what": f"{backend}/{ser}: arguments {kw} come back as {back} (arguments that compare equal were conflated)",
+                                             "input": {k: typed(v) for k, v in kw.items()}, "finding_key": f"{ser}:arguments-conflated"})
+                n += 1
+                a1, a2 = cds.serialize_arguments({"a": 1, "b": True}, ()), cds.serialize_arguments({"a": 1, "b": 1}, ())
+                if ser != "json" and compute_args_id(a1) == compute_args_id(a2):       # json has no bool/int distinction problem: "true" vs "1"
+                    res.failures.append({"what": f"{backend}/{ser}: f(1, True) and f(1, 1) share one call identity", "finding_key": f"{ser}:identity-conflated"})
+                elif ser == "json" and compute_args_id(a1) == compute_args_id(a2):
+                    res.failures.append({"what": f"{backend}/{ser}: f(1, True) and f(1, 1) share one call identity", "finding_key": f"{ser}:identity-conflated"})
+                # a reference handed out after a purge must have content behind it (also for a reader without this process's local cache)
+                n += 1
+                big = "p" * 3000
+                try:
+                    cds.serialize(big)
+                    cds.purge()
+                    ref = cds.serialize(big)
+                    cds._deserialized_cache.clear()
+                    ok = cds.resolve(ref) == big
+                except Exception:
+                    ok = False
+                if not ok:
+                    res.failures.append({"what": f"{backend}/{ser}: serialize(x); purge(); serialize(x) returns a reference with no content behind it",
+                                         "finding_key": "dangling-after-purge"})
                 from pynenc.serializer.constants import ReservedKeys
                 v = ReservedKeys.CLIENT_DATA.value + ":not-a-stored-key"
                 n += 1
